@@ -36,7 +36,8 @@ TRUSTED_BASE_COMMON = [
 ]
 
 
-def sh(cmd, timeout=1800, cwd=ROOT, env=None, capture=True):
+def clean_env(env=None):
+    """The environment every child of a check runs in (cargo, runners, drivers, coqc)."""
     e = dict(os.environ)
     e.setdefault("CARGO_NET_OFFLINE", "true")
     # an ambient RUSTFLAGS would override harness/.cargo/config.toml and silently drop --cfg scylla_verif
@@ -53,6 +54,11 @@ def sh(cmd, timeout=1800, cwd=ROOT, env=None, capture=True):
                 e.pop(var)
     if env:
         e.update(env)
+    return e
+
+
+def sh(cmd, timeout=1800, cwd=ROOT, env=None, capture=True):
+    e = clean_env(env)
     try:
         p = subprocess.run(cmd, shell=isinstance(cmd, str), cwd=cwd, env=e, timeout=timeout,
                            stdout=subprocess.PIPE if capture else None,
@@ -247,7 +253,7 @@ def run_driver(pid, case_file, extra_args=""):
 
     def work(ch):
         try:
-            p = subprocess.run(f"{drv} {extra_args}", shell=True, input="\n".join(ch) + "\n",
+            p = subprocess.run(f"{drv} {extra_args}", shell=True, input="\n".join(ch) + "\n", env=clean_env(),
                                stdout=subprocess.PIPE, stderr=subprocess.PIPE, text=True, timeout=3000)
         except subprocess.TimeoutExpired:
             return ["error driver-timeout"] * len(ch)
